@@ -127,6 +127,26 @@ def run(ctx):
                            "theorem": "ZwVerif.C19.status_of_flags / quiet_stdout_empty / count_line"})
         else:
             ok += 1
+    # files that cannot be opened are skipped — and leave no trace in what the query sees: the same run without them prints the
+    # same (queries that look at the input value: its position, its name)
+    skip_ok = 0
+    for q in ("pos", "?(pos == 0)", "[pos]", "dup pos", '"%s"', "(pos, name)", "?(pos == 1) name"):
+        for files in ([bad[0], good[0]], [good[0], bad[1], good[1]], [bad[1], bad[0], good[1], good[0]], [good[1], bad[0]],
+                      [bad[0], good[0], bad[1], good[1], good[2]]):
+            for fl in (["-h"], ["-h", "-c"], ["-H"], ["-h", "-s"]):
+                kept = [f for f in files if f in good]
+                a = subprocess.run([im.dwgrep] + fl + ["-e", q] + files, stdout=subprocess.PIPE, stderr=subprocess.PIPE, text=True, errors="replace", timeout=60)
+                b = subprocess.run([im.dwgrep] + fl + ["-e", q] + kept, stdout=subprocess.PIPE, stderr=subprocess.PIPE, text=True, errors="replace", timeout=60)
+                if "-H" in fl and len(kept) == 1:
+                    pass
+                if a.stdout != b.stdout:
+                    ctx.violation("dwgrep %r: files that cannot be opened are not simply skipped: stdout %r, without them %r"
+                                  % (fl + ["-e", q] + files, a.stdout[:200], b.stdout[:200]),
+                                  {"stream": "C19-skipped-files", "input": {"argv": fl + ["-e", q] + files, "stdin": None},
+                                   "got": a.stdout[:500], "expected": b.stdout[:500], "theorem": "ZwVerif.C19.results_printed"})
+                else:
+                    skip_ok += 1
+    ctx.cov["skipped_file_runs_ok"] = skip_ok
     ctx.cov["evaluations"] = len(runs)
     ctx.cov["distinct_nontrivial"] = len(set(model_lines))
     ctx.cov["agreeing"] = ok
